@@ -66,6 +66,28 @@ class Syn:
                     out[it['name']] = it
         return out
 
+    def expanded(self, file, self_ty, node, depth=0):
+        """copy of `node` in which every `self.helper(..)` call to a method that does not exist on the pinned tree is followed
+        by that helper's body (a block), so that rules about the ORDER of calls see through helpers extracted later"""
+        import copy
+        from mirlib import load_pinned
+        pj = load_pinned() or {}
+        pinned = {p_.split('::')[-1] for p_ in pj.get('lib', {})}
+        meths = self.methods(file, self_ty)
+
+        def rec(n, d):
+            if isinstance(n, list):
+                return [rec(x, d) for x in n]
+            if not isinstance(n, dict):
+                return n
+            m = {k: rec(v, d) for k, v in n.items()}
+            if n.get('k') == 'mcall' and path_of(n.get('recv')) == ['self'] and n['method'] in meths and n['method'] not in pinned and d < 4:
+                body = rec(copy.deepcopy(meths[n['method']]['body']), d + 1)
+                return {'k': 'blockexpr', 'label': None, 'line': n.get('line'), 'helper': n['method'],
+                        'block': {'stmts': [{'k': 's_expr', 'expr': m, 'semi': True}, {'k': 's_expr', 'expr': {'k': 'blockexpr', 'label': None, 'block': body}, 'semi': True}]}}
+            return m
+        return rec(node, depth)
+
     def func(self, file, name):
         c = [it for it in self.all_items(file) if it['k'] == 'fn' and it['name'] == name]
         if len(c) != 1:
